@@ -314,8 +314,10 @@ func (v *Verifier) verifyCase(fi *FuncInfo, con *Contract, rep *FuncReport, case
 	}
 	fr.old = st.fork()
 	v.topFrame = fr
-	if len(fi.CutErr) > 0 {
-		panic(unsupportedf(fi.Decl.Pos(), "stale contract: %s", strings.Join(fi.CutErr, "; ")))
+	// A cut/assume whose anchor statement no longer exists is skipped (only ever removes a lemma or
+	// an assumption: obligations that needed it fail by themselves); it is reported in the notes.
+	for _, e := range fi.CutErr {
+		v.notes = append(v.notes, rep.Name+": unbound "+e)
 	}
 	entryPC := append([]*Term{}, st.pc...)
 
